@@ -37,5 +37,8 @@ def to_sympy(poly: PolyLike) -> Any:
     from sympy import symbols  # type: ignore
 
     locals_ = dict(zip(poly.names, symbols(poly.names)))
-    polynomial = eval(str(poly), locals_, {})  # pylint: disable=eval-used
+    # the text is evaluated as Python: the display signs must be Python's
+    with numpoly.global_options(display_exponent="**", display_multiply="*"):
+        text = str(poly)
+    polynomial = eval(text, locals_, {})  # pylint: disable=eval-used
     return polynomial
